@@ -58,7 +58,9 @@ func Offsets(t *rapid.T, n int, label string) []float32 {
 		// two stops next to nothing apart at the very start (a hard step at 0 that is still
 		// strictly increasing): 0, then the smallest float32 or some other tiny value
 		out[0] = 0
-		out[1] = rapid.SampledFrom([]float32{math.SmallestNonzeroFloat32, 1e-30, 1e-10, 3e-8}).Draw(t, label+".closeby")
+		// (values whose two low mantissa bits are clear: they survive the 4-byte number form, so the
+		// two stops stay distinct through an Encoder as well)
+		out[1] = math.Float32frombits(rapid.SampledFrom([]uint32{4, math.Float32bits(1e-30) &^ 3, math.Float32bits(1e-10) &^ 3, math.Float32bits(3e-8) &^ 3}).Draw(t, label+".closeby"))
 		for i := 2; i < n; i++ {
 			if !(out[i] > out[i-1]) {
 				out[i] = math.Nextafter32(out[i-1], 2)
